@@ -35,6 +35,11 @@ from pylib.common import rng, use_repo
 
 CLASSES = ["depend", "bdepend", "rdepend", "idepend", "pdepend"]
 CAT = "dev-a"
+VIRTUAL_KEYS = ("v", "w")  # names that live in the virtual/ category
+
+
+def cpn(key):
+    return f"virtual/{key}" if key in VIRTUAL_KEYS else f"{CAT}/{key}"
 KINDS = ("upgrade", "min", "empty")
 SRC_REPOS = ("src", "ovl")  # main repository, overlay (in the order they are handed to the resolver)
 
@@ -49,9 +54,9 @@ def ver_str(v):
 def atom_str(a):
     s = {"none": "", "weak": "!", "strong": "!!"}[a["blk"]]
     if a["op"] == "any":
-        s += f"{CAT}/{a['key']}"
+        s += cpn(a["key"])
     else:
-        s += f"{a['op']}{CAT}/{a['key']}-{ver_str(a['ver'])}"
+        s += f"{a['op']}{cpn(a['key'])}-{ver_str(a['ver'])}"
     if a["slot"] != "*":
         s += ":" + a["slot"]
     return s
@@ -114,8 +119,9 @@ class Env:
             for p in world["pkgs"]:
                 if p["repo"] != repo:
                     continue
-                cpvs.setdefault(CAT, {}).setdefault(p["key"], []).append(ver_str(p["ver"]))
-                meta[(CAT, p["key"], ver_str(p["ver"]))] = p
+                cat = cpn(p["key"]).split("/")[0]
+                cpvs.setdefault(cat, {}).setdefault(p["key"], []).append(ver_str(p["ver"]))
+                meta[(cat, p["key"], ver_str(p["ver"]))] = p
             holder, cache = {}, {}
 
             def mk(cat, pkg, ver, meta=meta, holder=holder, cache=cache):
@@ -150,10 +156,11 @@ class Env:
             return resolver.upgrade_resolver(vdb, src, resolver_cls=resolver.empty_tree_merge_plan)
         raise ValueError(kind)
 
-    def targets(self):
+    def targets(self, which=None):
         from pkgcore.ebuild.atom import atom
 
-        return [atom(atom_str(t)) for t in self.world["targets"]]
+        ts = self.world["targets"]
+        return [atom(atom_str(ts[k])) for k in (range(len(ts)) if which is None else which)]
 
 
 class Recorder:
@@ -319,11 +326,24 @@ class Recorder:
         )
 
 
-def run_once(world, kind, record=True):
-    """one resolver construction + add_atoms on fresh repositories"""
+def run_once(world, kind, record=True, mode="plain", which=None):
+    """one resolver instance on fresh repositories.
+    mode 'plain': add_atoms(targets) once.
+    mode 'batch': what pmerge --ignore-failures does: add_atoms(all); after a failure drop the failed target,
+                  reset() the resolver, add_atoms(the rest) - until success or one target is left.
+    mode 'seq'  : one add_atoms per target on the same instance, stopping at the first failure.
+    which: indices of the targets to ask for (default all).  Result: ok, ops, used (indices finally asked for),
+    done (targets resolved), marks (length of ops before each target, where that is known)."""
     env = Env(world)
-    out = dict(ok=False, raised=False, exc="", ops=[], tb="")
+    used = list(range(len(world["targets"]))) if which is None else list(which)
+    out = dict(ok=False, raised=False, exc="", ops=[], tb="", used=used, done=0, marks=[], resets=0, mode=mode)
     rec = Recorder(env) if record else None
+
+    def ops_now(res):
+        return [dict(t=op.desc, p=env.name.get(id(op.pkg), f"?{op.pkg}"),
+                     old=env.name.get(id(op.old_pkg), "?") if op.desc == "replace" else "-")
+                for op in res.state.iter_ops(True)]
+
     try:
         if rec:
             rec.__enter__()
@@ -332,14 +352,36 @@ def run_once(world, kind, record=True):
             res = env.resolver(kind)
             if rec:
                 rec.ps = res.state
-            ret = res.add_atoms(env.targets())
-            out["ok"] = not ret
+            if mode == "seq":
+                ok = True
+                for k in used:
+                    out["marks"].append(len(ops_now(res)))
+                    if res.add_atoms(env.targets([k])):
+                        ok = False
+                        break
+                    out["done"] += 1
+                out["ok"] = ok
+            else:
+                ret = res.add_atoms(env.targets(used))
+                while ret and mode == "batch" and len(used) > 1:
+                    failed = ret[0][0]
+                    keep = [k for k, t in zip(used, env.targets(used)) if t != failed]
+                    if not keep or len(keep) == len(used):
+                        break
+                    used = out["used"] = keep
+                    out["resets"] += 1
+                    res.reset()
+                    if rec:
+                        rec.ps = res.state  # reset() may install another planner state object
+                    ret = res.add_atoms(env.targets(used))
+                out["ok"] = not ret
+                out["done"] = len(used) if out["ok"] else 0
+                if len(used) == 1 and not out["resets"]:
+                    out["marks"] = [0]
         finally:
             if rec:
                 rec.__exit__()
-        for op in res.state.iter_ops(True):
-            out["ops"].append(dict(t=op.desc, p=env.name.get(id(op.pkg), f"?{op.pkg}"),
-                                   old=env.name.get(id(op.old_pkg), "?") if op.desc == "replace" else "-"))
+        out["ops"] = ops_now(res)
     except RecursionError:
         out.update(raised=True, exc="RecursionError", tb="RecursionError")
     except Exception as e:  # "never crash": every exception is an observation for the judge
@@ -374,13 +416,16 @@ def gen_world(r, style):
     """style: 'robust' (plain names, consistent requirements: mostly inside C16's judged domain),
     'friendly' (some version ranges / slots / blockers), 'hostile' (anything goes),
     'blocky' (many installed packages, names with several slots, blockers aimed at what is installed).
+    Every style but robust: sometimes a name of the virtual/ category, any-of groups of up to five.
     Every style: versions from pools with multi-digit / multi-component members, source packages
     spread over the main repository and an overlay."""
     nkeys = r.randint(2, 6 if style in ("robust", "friendly") else 5 if style == "hostile" else 4)
     allkeys = "abcdefgh"
     keys = list(allkeys[:nkeys])
+    if style != "robust" and r.random() < 0.3:
+        keys[-1] = "v"  # a package of the virtual/ category
     ghost = "z"  # a name no package has (blockers that hit nothing)
-    pool = {k: r.choice(VERSION_POOLS) for k in allkeys + ghost}
+    pool = {k: r.choice(VERSION_POOLS) for k in allkeys + ghost + "".join(VIRTUAL_KEYS)}
     p_multi = {"robust": 0.15, "friendly": 0.3, "hostile": 0.3, "blocky": 0.6}[style]
     p_inst = {"robust": 0.5, "friendly": 0.5, "hostile": 0.5, "blocky": 0.85}[style]
     pkgs = []
@@ -493,8 +538,10 @@ def gen_world(r, style):
                     items.append([[ratom(o, r.choice(["weak", "weak", "strong"]))]])
                 elif x < p_block + 0.6 * (1 - p_block):
                     items.append([[ratom(o)]])
-                elif x < p_block + 0.85 * (1 - p_block):
+                elif x < p_block + 0.8 * (1 - p_block):
                     items.append([[ratom(o)], [ratom(o)]])
+                elif x < p_block + 0.9 * (1 - p_block):
+                    items.append([[ratom(o)] for _ in range(r.randint(3, 5))])  # a long any-of group
                 else:
                     items.append([[ratom(o, "none"), ratom(o)], [ratom(o)]])
             p[c] = items
@@ -530,14 +577,17 @@ class Batch:
     def __init__(self):
         self.events, self.cases, self.ps = [], [], []
 
-    def add(self, world, kind, with_plan_trace=True):
-        """first run now; the second run of the identical inputs happens in complete(), i.e. after the
-        resolutions of all the OTHER worlds of the batch (nothing may leak from one resolver to the next)"""
-        o1 = run_once(world, kind, record=with_plan_trace)
+    def add(self, world, kind, with_plan_trace=True, mode="batch"):
+        """the session now; its repetition on a fresh instance happens in complete(), i.e.
+        after the resolutions of all the OTHER worlds of the batch (nothing may leak from one resolver
+        instance, or from one process-wide cache, to the next)"""
+        o1 = run_once(world, kind, record=with_plan_trace, mode=mode)
         tid = len(self.cases)
-        self.events.append(dict(tid=tid, i=0, ev="resolve", kind=kind, pkgs=world_event(world), targets=world["targets"],
-                                raised=o1["raised"], exc=o1["exc"], ok=o1["ok"], ops=o1["ops"]))
-        self.cases.append(dict(world=world, kind=kind, o1=o1))
+        asked = [world["targets"][k] for k in o1["used"]]
+        self.events.append(dict(tid=tid, i=0, ev="resolve", kind=kind, mode=mode, pkgs=world_event(world), targets=asked,
+                                raised=o1["raised"], exc=o1["exc"], ok=o1["ok"], ops=o1["ops"], done=o1["done"],
+                                marks=o1["marks"]))
+        self.cases.append(dict(world=world, kind=kind, mode=mode, o1=o1))
         if with_plan_trace and o1.get("ps_events"):
             u = o1["ps_universe"]
             self.ps.append(dict(tid=tid, i=0, ev="universe", pkgs=u["pkgs"], choices=u["choices"], blockers=u["blockers"],
@@ -551,13 +601,17 @@ class Batch:
     def complete(self):
         for ev, case in zip(self.events, self.cases):
             if "ok2" not in ev:
-                o2 = run_once(case["world"], case["kind"], record=False)  # identical inputs, fresh objects
+                # identical inputs: the same session on a fresh instance (a used instance may legitimately
+                # answer differently from a fresh one: what it learnt to be insoluble prunes its search)
+                o2 = run_once(case["world"], case["kind"], record=False, mode=case["mode"])
                 ev.update(raised2=o2["raised"], exc2=o2["exc"], ok2=o2["ok"], ops2=o2["ops"])
 
 
 PLAN_CLAUSES_OF = ("Target", "Closure_depend", "Closure_bdepend", "Closure_rdepend", "Closure_idepend", "Closure_pdepend",
                    "SlotUnique", "Blocker", "NoCrash")
-POLICY_CLAUSES = ("Deterministic", "Upgrade_failed", "Upgrade_highest", "Reuse_failed", "Reuse_installed")
+POLICY_CLAUSES = ("Deterministic", "Upgrade_failed", "Upgrade_highest", "Upgrade_ready", "Reuse_failed", "Reuse_installed",
+                  "Reuse_ready")
+SPECIAL_WORLDS = []  # the non-"main" parts of the exported family (filled by exported_worlds)
 
 
 def judge(ck, batch, label, want):
@@ -576,7 +630,8 @@ def judge(ck, batch, label, want):
             raise tlc.MachineryError(f"generator left the property's domain ({x}): {describe(case['world'])}")
         if v["clause"] not in want:
             continue
-        ck.violation(v["clause"], dict(kind=case["kind"], via=x.get("via", "-"), pkg=x.get("pkg", "-"), what=x.get("what", "-"),
+        ck.violation(v["clause"], dict(kind=case["kind"], mode=case.get("mode", "plain"), via=x.get("via", "-"),
+                                       pkg=x.get("pkg", "-"), what=x.get("what", "-"), asked=case["o1"].get("used", []),
                                        exc=case["o1"]["tb"], ops=case["o1"]["ops"], text=describe(case["world"]),
                                        world=case["world"]))
     if "PS" in want and batch.ps:
@@ -595,7 +650,8 @@ def judge(ck, batch, label, want):
             if v["clause"] == "Projection":
                 raise tlc.MachineryError(f"planner projection broken at {e}")
             call = {k: e[k] for k in ("ev", "c", "p", "force", "b", "r", "pos", "ret", "exc")}
-            ck.violation("PS_" + v["clause"], dict(kind=case["kind"], step=v["i"], op=e["ev"], call=call, exc=e["exc"],
+            ck.violation("PS_" + v["clause"], dict(kind=case["kind"], mode=case.get("mode", "plain"), step=v["i"], op=e["ev"],
+                                                   call=call, exc=e["exc"],
                                                    text=describe(case["world"]), world=case["world"]))
     return stats
 
@@ -638,7 +694,8 @@ def exported_worlds(ck, n_sample):
     if n_sample and n_sample < len(main):
         r_ = rng(1515)
         main = r_.sample(main, n_sample)
-    return [norm_world(c) for c in special + main]
+    SPECIAL_WORLDS[:] = [norm_world(c) for c in special]
+    return SPECIAL_WORLDS + [norm_world(c) for c in main]
 
 
 def nontrivial(ck, tag, world, kind, o1):
@@ -662,11 +719,15 @@ def campaign(ck, want, plan_trace, sizes, styles=STYLES, seed=15, tail=None):
 
     def one(tag, world, n, extra):
         nonlocal batch, nb
-        for kind in KINDS:
-            o1 = batch.add(world, kind, with_plan_trace=plan_trace)
+        sessions = [(kind, "batch") for kind in KINDS]
+        if len(world["targets"]) > 1:
+            sessions += [("upgrade", "seq"), ("min", "seq")]
+        for kind, mode in sessions:
+            o1 = batch.add(world, kind, with_plan_trace=plan_trace, mode=mode)
             ck.count()
-            nontrivial(ck, tag, world, kind, o1)
+            nontrivial(ck, tag, world, kind + mode, o1)
             stats["crashed" if o1["raised"] else "ok" if o1["ok"] else "failed"] += 1
+            stats["resets"] = stats.get("resets", 0) + o1["resets"]
         if n < 2:
             ck.sample(dict(kind=kind, ok=o1["ok"], ops=o1["ops"], **extra, **describe(world)))
         if len(batch.events) >= chunk:
@@ -692,7 +753,7 @@ def replay(ck, want):
     world = norm_world(d["world"])
     batch = Batch()
     for kind in ([d["kind"]] if d.get("kind") in KINDS else KINDS):
-        batch.add(world, kind, with_plan_trace="PS" in want)
+        batch.add(world, kind, with_plan_trace="PS" in want, mode=d.get("mode", "batch") if d.get("mode") != "plain" else "batch")
         ck.count()
         ck.nontriv(("replay", kind))
     ck.sample(describe(world))
@@ -722,7 +783,7 @@ def run(ck):
     if ck.replay_case:
         return replay(ck, want)
     model_check(ck)
-    stats = campaign(ck, want, plan_trace=True, sizes=ck.pick((16, 44, 100000), (1000, 1400, 1800)))
+    stats = campaign(ck, want, plan_trace=True, sizes=ck.pick((12, 36, 100000), (1000, 1400, 1800)))
     ck.extra["runs"] = stats
     ck.extra["plan_state_calls_outside_C17_domain"] = stats["outside"]
     if stats["ok"] == 0 and not ck.violations:
